@@ -1,4 +1,4 @@
-import Gedcom.Model.Similarity
+import Gedcom.Model.SimilarityRaw
 import Driver.Util
 namespace Driver.SimH
 open Driver
@@ -48,7 +48,13 @@ def parseDateR (s : String) : Option (Option DateR) :=
 def parseNames (s : String) : Option (List Str) :=
   if s == "_" then some [] else (s.splitOn ",").mapM fromHex
 
-/-- `some none` = nil individual -/
+def parseStrs (s : String) : Option (List Str) :=
+  if s == "_" then some [] else (s.splitOn ",").mapM fromHex
+
+/-- `some none` = nil individual.  Two formats: `id:names:birth:death` with the estimated dates
+    already parsed (`d.m.y.d.m.y` | `n`), and the raw record
+    `id:names:births:baptisms:deaths:burials` with the DATE values of the events as hex strings
+    (`_` = no date), which the model parses and selects from itself. -/
 def parseIndi (s : String) : Option (Option Indi) :=
   if s == "n" then some none else
   match s.splitOn ":" with
@@ -58,6 +64,14 @@ def parseIndi (s : String) : Option (Option Indi) :=
     let b ← parseDateR b
     let d ← parseDateR d
     pure (some ⟨id, names, b, d⟩)
+  | [id, names, births, baptisms, deaths, burials] => do
+    let id ← id.toNat?
+    let names ← parseNames names
+    let births ← parseStrs births
+    let baptisms ← parseStrs baptisms
+    let deaths ← parseStrs deaths
+    let burials ← parseStrs burials
+    pure (some (RawIndi.toIndi ⟨id, names, births, baptisms, deaths, burials⟩))
   | _ => none
 
 def parseIndis (s : String) : Option (List Indi) :=
@@ -156,6 +170,16 @@ def handleSimilarity (cmd : String) (rest : List String) : Option String :=
     | [l, r, my] => some <| match parseDateR l, parseDateR r, parseRat my with
       | some l, some r, some my =>
         if my == 0 then "nan" else showRat (dateSimilarity l r my)
+      | _, _, _ => "bad-op"
+    | _ => some "bad-op"
+  | "datesim-s" =>
+    -- DATE values as hex strings (`n` = nil node), parsed by the model
+    match rest with
+    | [l, r, my] =>
+      let str (t : String) : Option (Option Str) := if t == "n" then some none else (fromHex t).map some
+      some <| match str l, str r, parseRat my with
+      | some l, some r, some my =>
+        if my == 0 then "nan" else showRat (dateStringSimilarity l r my)
       | _, _, _ => "bad-op"
     | _ => some "bad-op"
   | "sim-indi" =>
